@@ -71,7 +71,7 @@ func main() {
 // ---------------------------------------------------------------- worker
 
 func worker() {
-	debug.SetMaxStack(64 << 20)
+	debug.SetMaxStack(4 << 20)
 	debug.SetGCPercent(200)
 	in := bufio.NewReaderSize(os.Stdin, 1<<20)
 	out := bufio.NewWriter(os.Stdout)
@@ -428,7 +428,7 @@ func supervise(prop, tier string) int {
 						return
 					}
 				}
-				res, crashed, text, err := p.call(request{Cmd: "run", Property: prop, Seed: seed, Run: run, Tier: tier}, 180*time.Second)
+				res, crashed, text, err := p.call(request{Cmd: "run", Property: prop, Seed: seed, Run: run, Tier: tier}, 60*time.Second)
 				if err != nil {
 					mu.Lock()
 					harnessEr = append(harnessEr, fmt.Sprintf("run %d: %v", run, err))
